@@ -39,6 +39,8 @@ def _case(rng, farmer=None, sow_constants=False):
             sw['values'][a] = sorted(rng.sample(range(-9, 60), len(sw['values'][a])))
     desc = labelled.gen_desc(rng, auto=False, to_df=to_df)
     if farmer != 'runner': desc.pop('leaf', None)
+    if 'k0' in desc['constants'] and not to_df and rng.random() < 0.3:
+        desc['resources']['k0'] = 'RR'          # one name both a resource and a constant: the constant is what the function gets
     n = sweeps.n_settings(sw)
     b = crops.gen_batching(rng, n)
     c = {'farmer': farmer, 'to_df': to_df, 'sweep': sw, 'desc': desc, 'batching': b, 'B': crops.num_batches_for(n, b),
@@ -46,7 +48,7 @@ def _case(rng, farmer=None, sow_constants=False):
          'cases': cases, 'seed': rng.randrange(10 ** 6)}
     if farmer == 'harvester':
         c['engine'] = rng.choice(['joblib', 'joblib', 'h5netcdf'])
-        c['initial'] = rng.choice(['none', 'disjoint', 'overlap'])
+        c['initial'] = rng.choice(['none', 'disjoint', 'overlap', 'conflict'])
         c['overwrite'] = rng.choice([None, True, False])
     if farmer == 'sampler':
         c['engine'] = rng.choice(['pickle', 'csv'])
@@ -88,7 +90,7 @@ def _initial_part(c):
     a = sw['combo_args'][0]
     vals = [sw['values'][a][r] for r in sw['combo_order'][a]]
     combos = {b: [sw['values'][b][r] for r in sw['combo_order'][b]] for b in sw['combo_args']}
-    if c['initial'] == 'overlap': combos[a] = vals[:1]
+    if c['initial'] in ('overlap', 'conflict'): combos[a] = vals[:1]
     else: return None if len(sw['values'][a]) < 1 else {'extra': True, 'combos': combos, 'arg': a}
     return {'extra': False, 'combos': combos, 'arg': a}
 
@@ -108,8 +110,15 @@ def run_real(c, ctx):
         cases_t = sweeps.py_cases(sw, 'tuple')
         init = _initial_part(c) if c['farmer'] == 'harvester' else None
         with quiet():
+            conflict = bool(init) and c.get('initial') == 'conflict'
             if init and not init['extra']:
-                farmer.harvest_combos(init['combos'], verbosity=0); farmer2.harvest_combos(init['combos'], verbosity=0)
+                if conflict:
+                    # the store already holds OTHER values at some of the points that are about to be reaped
+                    f_alt = fns.Rec(dict(f.spec, offset=7))
+                    for data in (data_crop, data_direct):
+                        _mk_farmer(xyz, c, f_alt, data)[0].harvest_combos(init['combos'], verbosity=0)
+                else:
+                    farmer.harvest_combos(init['combos'], verbosity=0); farmer2.harvest_combos(init['combos'], verbosity=0)
             if c['farmer'] == 'sampler' and c.get('initial') == 'some':
                 first = cases_t[:2]
                 for fm in (farmer, farmer2):
@@ -125,14 +134,28 @@ def run_real(c, ctx):
             if 'after_sow' in c['reload']:
                 crop = xyz.Crop(name='t', parent_dir=d)
             ids = list(range(1, c['B'] + 1)); random.Random(c['seed']).shuffle(ids)
+            fns.reset_log()
             crop.grow(ids[:len(ids) // 2] or ids, verbosity=0)
             crop.grow_missing(verbosity=0)
+            calls_crop = sorted(json.dumps(kw, sort_keys=True, default=str) for kw in fns.read_log())
+            fns.reset_log()
             if 'after_grow' in c['reload']:
                 crop = xyz.Crop(name='t', parent_dir=d)
             opts = {}
             if c['farmer'] == 'harvester' and c['overwrite'] is not None: opts['overwrite'] = c['overwrite']
             if c['farmer'] == 'runner' and c['to_df']:
                 res = crop.reap_runner(crop.farmer, to_df=True)
+            elif conflict:
+                outcome = {}
+                try: res = crop.reap(**opts)
+                except Exception as e: outcome['crop'] = type(e).__name__
+                try: farmer2.harvest_combos(combos_sorted, verbosity=0, **opts)
+                except Exception as e: outcome['direct'] = type(e).__name__
+                if outcome:
+                    return {'conflict': outcome, 'store': labelled.canon_ds(xyz.load_ds(data_crop, engine=c['engine'])),
+                            'store_direct': labelled.canon_ds(xyz.load_ds(data_direct, engine=c['engine'])),
+                            'dir_left': os.path.exists(os.path.join(d, '.xyz-t'))}
+                c = dict(c, _conflict_done=True)
             else:
                 res = crop.reap(**opts)
             fm = crop.farmer                       # after a reload this is the unpickled farmer
@@ -142,7 +165,8 @@ def run_real(c, ctx):
                 if c['cases']: direct = runner2.run_cases(cases_t, fn_args=sw['case_args'], to_df=c['to_df'], verbosity=0, **dkw)
                 else: direct = runner2.run_combos(combos_sorted, to_df=c['to_df'], verbosity=0, **dkw) if c['to_df'] else runner2.run_combos(combos_sorted, verbosity=0, **dkw)
             elif c['farmer'] == 'harvester':
-                if c['cases']: farmer2.harvest_cases(cases_t, verbosity=0, **opts)
+                if c.get('_conflict_done'): pass
+                elif c['cases']: farmer2.harvest_cases(cases_t, verbosity=0, **opts)
                 else: farmer2.harvest_combos(combos_sorted, verbosity=0, **opts)
                 direct = farmer2.last_ds
             else:
@@ -150,6 +174,9 @@ def run_real(c, ctx):
                 farmer2.add_df(direct)
         cn = labelled.canon_df if c['to_df'] else labelled.canon_ds
         obs = {'res': cn(res), 'direct': cn(direct)}
+        if not c.get('_conflict_done'):
+            obs['calls_crop'] = calls_crop
+            obs['calls_direct'] = sorted(json.dumps(kw, sort_keys=True, default=str) for kw in fns.read_log())
         if c['farmer'] == 'runner':
             last = fm.last_ds if not c['to_df'] else getattr(fm, '_last_df', None)
             obs['last_is_res'] = last is res
@@ -193,7 +220,7 @@ def model_request(c, obs):
 
 
 def compare(c, obs, rep):
-    if 'err' in obs: return None
+    if 'err' in obs or 'conflict' in obs: return None
     last = rep['obs'][-1]['o']
     sw = crops.sorted_sweep(c['sweep'])
     if 'err' in last: return f'model reap failed: {last}'
@@ -206,12 +233,25 @@ def compare(c, obs, rep):
 def oracle(c, obs):
     if 'harness_exc' in obs: return None
     if 'err' in obs: return f'raised {obs["err"]}: {obs.get("msg")} {obs.get("tb", "")[-300:]}'
+    if 'conflict' in obs:
+        # values in the store conflict with the new ones: the reap must do what a direct harvest with that policy does
+        oc = obs['conflict']
+        if oc.get('crop') != oc.get('direct'):
+            return f'conflicting data in the store, overwrite={c["overwrite"]}: the reap {"raised " + oc["crop"] if "crop" in oc else "went through"} but the direct harvest {"raised " + oc["direct"] if "direct" in oc else "went through"}'
+        if c['overwrite'] is not None: return f'overwrite={c["overwrite"]} but both paths raised {oc}'
+        dd = labelled.diff_ds(obs['store'], obs['store_direct'])
+        if dd: return 'after the refused merge the two stores differ: ' + dd
+        if not obs['dir_left']: return 'the reap was refused but the crop is gone'
+        return None
     if obs['oracle']: return 'reaped data: ' + obs['oracle']
     if c['to_df']:
         if obs['res'] != obs['direct']: return 'reaped DataFrame differs from the direct run'
     else:
         dd = labelled.diff_ds(obs['res'], obs['direct'])
         if dd: return 'reaped Dataset differs from the direct run: ' + dd
+    if 'calls_crop' in obs and obs['calls_crop'] != obs['calls_direct']:
+        a = [x for x in obs['calls_crop'] if x not in obs['calls_direct']][:2]; b = [x for x in obs['calls_direct'] if x not in obs['calls_crop']][:2]
+        return f'growing the crop called the function with other keyword arguments than the direct run: crop {a} direct {b}'
     if not obs['last_is_res']: return "the farmer's last result is not the reaped data"
     if c['farmer'] == 'harvester':
         dd = labelled.diff_ds(obs['store'], obs['store_direct'])
